@@ -119,7 +119,10 @@ func genCase(t *rapid.T) Case {
 	faulty := expr
 	var later []string
 	if c.Deferred {
-		switch gen.Uniform(t, "defkind", 9) {
+		switch gen.Uniform(t, "defkind", 10) {
+		case 9: // the later call is the initialiser of a def (an error without a position must not pick up that def's)
+			faulty = "(def later-fn (fn (p)\n  " + expr + "))"
+			later = append(later, "(def later-result\n  (later-fn\n    1))")
 		case 7, 8: // the fault runs while a macro, defined here, expands a call that stands in a later form
 			faulty = "(defmacro later-m (fn (p)\n  (do\n    " + expr + "\n    p)))"
 			if gen.Uniform(t, "mlater", 2) == 0 {
@@ -200,7 +203,9 @@ func check(c Case) pbt.Verdict {
 		cursor = types.NewCursorFile(c.Module)
 	}
 	if c.ReadBefore {
-		box.Guard(func() (types.MalType, error) { return lisp.READ(c.Text, types.NewCursorFile("tenants/other/rules.lisp"), e) })
+		box.Guard(func() (types.MalType, error) {
+			return lisp.READ(c.Text, types.NewCursorFile("tenants/other/rules.lisp"), e)
+		})
 	}
 	r := box.Guard(func() (types.MalType, error) {
 		ast, err := lisp.READ(c.Text, cursor, e)
